@@ -116,11 +116,34 @@ def drive(ctx, name, make, rng, reqs):
             ctx.fail([name, "learn-raises", errname(e)], "%s.learn raised %s: %s after %d rounds on %s" % (name, errname(e), str(e)[:100], t, case), dict(case, history=hist[-6:])); return
     ctx.sample(dict(case=case, last=hist[-2:]), cap=5)
 
+def long_corral(ctx):
+    """Corral with a small finite horizon T learns for far more than T rounds (nothing stops a user from doing so): learning never raises, the weights stay a strictly
+    positive distribution and the learning rates stay positive"""
+    from coba.learners import RandomLearner, BanditEpsilonLearner, CorralLearner
+    rng = ctx.rng
+    for T in (2, 3, 4, 7):
+        for mode in ("importance", "off-policy"):
+            eta = rng.choice([0.075, 0.5, 2]); rounds = 1000 if ctx.tier != "thorough" else 3000
+            case = dict(what="Corral far beyond its horizon", T=T, mode=mode, eta=eta, rounds=rounds); ctx.count("corral-long:T%d" % T, repr(case), True)
+            lrn = CorralLearner([RandomLearner(1), BanditEpsilonLearner(0.1, 2)], eta=eta, T=T, mode=mode, seed=3)
+            acts = [1, 2, 3]
+            try:
+                for t in range(rounds):
+                    pred = lrn.predict(None, acts); a, p = pred[0], pred[1]; kw = pred[2] if len(pred) > 2 else {}
+                    lrn.learn(None, a, [0, 0.5, 1][(t * 7 + acts.index(a)) % 3], p, **(kw if isinstance(kw, dict) else {}))
+                    if t % 50 == 0 or t == rounds - 1:
+                        ps = list(lrn._ps)
+                        if not (all(x > 0 for x in ps) and abs(sum(ps) - 1) < 1e-3): ctx.fail(["corral", "weights-invalid", "long-run"], "Corral(T=%d) weights %r after %d rounds" % (T, ps, t + 1), case); break
+                        if not all(e > 0 for e in lrn._etas): ctx.fail(["corral", "learning-rate-zero", "long-run"], "Corral(T=%d) learning rates %r after %d rounds" % (T, list(lrn._etas), t + 1), case); break
+            except Exception as e:
+                ctx.fail(["corral", "learn-raises", errname(e), "long-run"], "Corral(T=%d, mode=%s) raised %s after %d rounds: %s" % (T, mode, errname(e), t + 1, str(e)[:80]), case)
+
 def run(ctx):
     from coba.learners import RandomLearner, FixedLearner, BanditEpsilonLearner, BanditUCBLearner, CorralLearner, MisguidedLearner
     from coba.context import CobaContext, NullLogger
     CobaContext.logger = NullLogger()
     rng = ctx.rng
+    long_corral(ctx)
     def mk_eps(): e = rng.choice([0, 0.05, 0.5, 1]); s = seed_pick(rng); return BanditEpsilonLearner(e, s), dict(epsilon=e, seed=s)
     def mk_ucb(): s = seed_pick(rng); return BanditUCBLearner(s), dict(seed=s)
     def mk_rnd(): s = seed_pick(rng); return RandomLearner(s), dict(seed=s)
